@@ -7,6 +7,11 @@
 #include "core.h"
 int verif_thrown; bool verif_may_throw;
 struct Basic;
+/* a generator (variable) object: id = its eq-class, alt = which of two objects of that class it is.  Two eq generators may PRINT differently
+   (f(0.0) and f(-0.0) are eq with equal hashes), so __str__ depends on (id, alt) while hash() depends on id only (the C01 contract of the children) */
+struct strkey { int id; bool alt; };
+struct varobj { int id; bool alt; strkey __str__() const { strkey k; k.id = id; k.alt = alt; return k; } };
+inline void hash_combine_impl(hash_t &seed, const varobj &v);
 #include "hc.inc"
 struct evec {                     /* vec_uint: exponent vector */
   unsigned d[2]; unsigned n;
@@ -30,7 +35,9 @@ struct mdict {
   term *begin() const { return &d[0]; }
   term at(unsigned k) const { term t; unsigned i = (rev && n == 2) ? 1 - k : k; t.first = d[i < 2 ? i : 0].first; t.second = d[i < 2 ? i : 0].second; return t; }
 };
-struct vset { int d[2]; unsigned n; vset() { n = 0; d[0] = 0; d[1] = 0; } vset(const vset &o) { n = o.n; d[0] = o.d[0]; d[1] = o.d[1]; } vset &operator=(const vset &o) { n = o.n; d[0] = o.d[0]; d[1] = o.d[1]; return *this; } unsigned size() const { return n; } int at(unsigned k) const { return d[k < 2 ? k : 0]; } };   /* set_basic of symbols: sorted ids */
+struct vset { int d[2]; bool alt[2]; unsigned n; vset() { n = 0; d[0] = 0; d[1] = 0; alt[0] = false; alt[1] = false; } vset(const vset &o) { n = o.n; d[0] = o.d[0]; d[1] = o.d[1]; alt[0] = o.alt[0]; alt[1] = o.alt[1]; }
+  vset &operator=(const vset &o) { n = o.n; d[0] = o.d[0]; d[1] = o.d[1]; alt[0] = o.alt[0]; alt[1] = o.alt[1]; return *this; } unsigned size() const { return n; } int at(unsigned k) const { return d[k < 2 ? k : 0]; }
+  varobj obj(unsigned k) const { varobj v; v.id = d[k < 2 ? k : 0]; v.alt = alt[k < 2 ? k : 0]; return v; } };   /* set_basic of generators: sorted eq-class ids (set equality is by eq, i.e. by id) */
 inline bool unified_eq(const vset &a, const vset &b) { return a.n == b.n && (a.n < 1 || a.d[0] == b.d[0]) && (a.n < 2 || a.d[1] == b.d[1]); }
 inline bool term_eq(const term &a, const term &b) { return a.first == b.first && a.second == b.second; }
 inline bool unified_eq(const mdict &a, const mdict &b)
@@ -77,8 +84,10 @@ inline int unified_compare(const mdict &a, const mdict &b)
   return 0;
 }
 #endif
-hash_t NAMEHASH[4];               /* opaque: what hash_combine<std::string>(seed, var->__str__()) mixes in for variable id v */
-inline void hash_combine_name(hash_t &seed, int var) { hash_combine<hash_t>(seed, NAMEHASH[var >= 0 && var < 4 ? var : 0]); }
+hash_t NAMEHASH[4];               /* opaque: hash() of the generators of eq-class id (equal for eq objects: the children's contract) */
+hash_t STRHASH[8];                /* opaque: what hashing the printed name of object (id, alt) mixes in */
+inline void hash_combine_impl(hash_t &seed, const varobj &v) { hash_combine_impl(seed, NAMEHASH[v.id >= 0 && v.id < 4 ? v.id : 0]); }
+inline void hash_combine_str(hash_t &seed, const strkey &k) { hash_combine<hash_t>(seed, STRHASH[(k.id >= 0 && k.id < 4 ? k.id : 0) * 2 + (k.alt ? 1 : 0)]); }
 /* vec_hash<vec_uint>()(v): the real template text (vechash.inc), instantiated for the exponent-vector stub */
 #include "vechash.inc"
 struct polybox { mdict dict_; polybox() {} polybox(const polybox &o) { dict_ = o.dict_; } polybox &operator=(const polybox &o) { dict_ = o.dict_; return *this; } };
@@ -103,7 +112,7 @@ static void any_poly(MIntPoly &p, Basic &b)
 {
   b.type_code_ = SYMENGINE_MINTPOLY; b.mp_ = &p;
   p.vars_.n = nondet_uint(); __CPROVER_assume(p.vars_.n <= 2);
-  p.vars_.d[0] = nondet_int(); p.vars_.d[1] = nondet_int();
+  p.vars_.d[0] = nondet_int(); p.vars_.d[1] = nondet_int(); p.vars_.alt[0] = nondet_boolean(); p.vars_.alt[1] = nondet_boolean();
   __CPROVER_assume(p.vars_.d[0] >= 0 && p.vars_.d[0] < 4 && p.vars_.d[1] >= 0 && p.vars_.d[1] < 4 && (p.vars_.n < 2 || p.vars_.d[0] < p.vars_.d[1]));
   p.poly_.dict_.n = nondet_uint(); __CPROVER_assume(p.poly_.dict_.n <= 2); p.poly_.dict_.rev = nondet_boolean();
   for (unsigned k = 0; k < 2; k++) {
@@ -119,6 +128,7 @@ static bool spec_constant(const MIntPoly &p) { return p.poly_.dict_.n == 0 || (p
 extern "C" void h_mpoly(void)
 {
   for (unsigned k = 0; k < 4; k++) NAMEHASH[k] = nondet_ulong();
+  for (unsigned k = 0; k < 8; k++) STRHASH[k] = nondet_ulong();
   MIntPoly P, Q; Basic PB, QB; any_poly(P, PB); any_poly(Q, QB);
   verif_may_throw = false;
   bool e = P.__eq__(QB);
